@@ -107,12 +107,12 @@ def b60(rng, df, force=None):
                 if rng.random() < 0.2:
                     altcode = 0
                 else:
-                    n = rng.randrange(40, 1800)
+                    n = rng.choice((rng.randrange(40, 1800), rng.randrange(1800, 2048), 2047))   # up to the top of the Q range (50175 ft)
                     altft = n * 25 - 1000
                     altcode = ralt.q_code13(n)
                     if rng.random() < 0.3:
                         # the same kind of register under a Gillham (100-ft) altitude code, as older encoders send it
-                        altft = rng.randrange(0, 451) * 100
+                        altft = rng.choice((rng.randrange(0, 451), rng.randrange(451, 601))) * 100
                         altcode = ralt.gillham_code13(altft)
                     m = rng.choice((0, 250, rng.randint(40, 250)))
                     cas = isa.mach2cas(m * 2.048 / 512.0, altft * isa.FT) / isa.KTS
